@@ -436,6 +436,11 @@ const prelude = `
 (define-fun zigzag ((x Int)) Int (ite (>= x 0) (* 2 x) (- (* (- 2) x) 1)))
 (define-fun sz_uvarint ((u Int)) Int (ite (< u 128) 1 (ite (< u 16384) 2 (ite (< u 2097152) 3 (ite (< u 268435456) 4 (ite (< u 34359738368) 5 (ite (< u 4398046511104) 6 (ite (< u 562949953421312) 7 (ite (< u 72057594037927936) 8 (ite (< u 9223372036854775808) 9 10))))))))))
 (define-fun sz_varint ((x Int)) Int (sz_uvarint (zigzag x)))
+(define-fun uv_val ((a (Array Int Int)) (o Int)) Int (ite (< (select a (+ o 0)) 128) (select a (+ o 0)) (+ (- (select a (+ o 0)) 128) (* 128 (ite (< (select a (+ o 1)) 128) (select a (+ o 1)) (+ (- (select a (+ o 1)) 128) (* 128 (ite (< (select a (+ o 2)) 128) (select a (+ o 2)) (+ (- (select a (+ o 2)) 128) (* 128 (ite (< (select a (+ o 3)) 128) (select a (+ o 3)) (+ (- (select a (+ o 3)) 128) (* 128 (ite (< (select a (+ o 4)) 128) (select a (+ o 4)) (+ (- (select a (+ o 4)) 128) (* 128 (ite (< (select a (+ o 5)) 128) (select a (+ o 5)) (+ (- (select a (+ o 5)) 128) (* 128 (ite (< (select a (+ o 6)) 128) (select a (+ o 6)) (+ (- (select a (+ o 6)) 128) (* 128 (ite (< (select a (+ o 7)) 128) (select a (+ o 7)) (+ (- (select a (+ o 7)) 128) (* 128 (ite (< (select a (+ o 8)) 128) (select a (+ o 8)) (+ (- (select a (+ o 8)) 128) (* 128 (select a (+ o 9))))))))))))))))))))))))))))))
+(define-fun uv_len ((a (Array Int Int)) (o Int)) Int (ite (< (select a (+ o 0)) 128) 1 (ite (< (select a (+ o 1)) 128) 2 (ite (< (select a (+ o 2)) 128) 3 (ite (< (select a (+ o 3)) 128) 4 (ite (< (select a (+ o 4)) 128) 5 (ite (< (select a (+ o 5)) 128) 6 (ite (< (select a (+ o 6)) 128) 7 (ite (< (select a (+ o 7)) 128) 8 (ite (< (select a (+ o 8)) 128) 9 (ite (< (select a (+ o 9)) 128) 10 11)))))))))))
+(define-fun uv_n ((a (Array Int Int)) (o Int) (l Int)) Int (ite (<= (uv_len a o) 10) (ite (<= (uv_len a o) l) (ite (and (= (uv_len a o) 10) (> (select a (+ o 9)) 1)) (- 10) (uv_len a o)) 0) (ite (> l 10) (- 11) 0)))
+(define-fun uv_value ((a (Array Int Int)) (o Int) (l Int)) Int (ite (> (uv_n a o l) 0) (uv_val a o) 0))
+(define-fun unzigzag ((u Int)) Int (ite (= (mod u 2) 0) (div u 2) (- (- (div u 2)) 1)))
 (declare-sort Str 0)
 (declare-fun strlen (Str) Int)
 (declare-fun dyntype (Int) Int)
